@@ -1127,6 +1127,12 @@ var SetProductFunc = function.New(&function.Spec{
 		productVals := make([]cty.Value, total)
 		for i, vals := range product {
 			productVals[i] = cty.TupleVal(vals)
+			if !productVals[i].Type().Equals(productVals[0].Type()) {
+				// This can happen only if some of the element types are not
+				// known yet (dynamically-typed tuple elements), in which case
+				// we can't build the collection of combinations yet either.
+				return cty.UnknownVal(retType).WithMarks(retMarks), nil
+			}
 		}
 
 		if retType.IsListType() {
